@@ -257,15 +257,23 @@ func genC08(t *rapid.T, excluded *int) C08Case {
 		c.Having = genHavingC08(t, opNames, 1, "h", excluded)
 		// HAVING over a crosstab query: the condition is evaluated on the
 		// non-crosstab values of the output group
-		if len(c.Q.GroupBy) > 0 && rapid.IntRange(0, 2).Draw(t, "hct") == 0 {
+		if rapid.IntRange(0, 2).Draw(t, "hct") == 0 {
 			var sdims []string
 			for _, d := range dims {
-				if (d == "da" || d == "dc") && !has(c.Q.GroupBy, d) {
+				if d == "da" || d == "dc" {
 					sdims = append(sdims, d)
 				}
 			}
 			if len(sdims) > 0 {
-				c.Q.Crosstab = []string{rapid.SampledFrom(sdims).Draw(t, "hctd")}
+				ct := rapid.SampledFrom(sdims).Draw(t, "hctd")
+				var rest []string
+				for _, d := range dims {
+					if d != ct && rapid.Bool().Draw(t, "hctkeep."+d) {
+						rest = append(rest, d)
+					}
+				}
+				c.Q.GroupBy, c.Q.GroupStar, c.Q.GroupNone = rest, false, len(rest) == 0
+				c.Q.Crosstab = []string{ct}
 				c.Q.CrosstabT = rapid.Bool().Draw(t, "hctt")
 			}
 		}
@@ -441,7 +449,7 @@ func runC08(c *C08Case) error {
 		q := *c.Q
 		q.WhereIn = &h.InSub{Dim: c.InDim, Sub: c.Sub}
 		return withClock(&c.Data, "c08i", c.Data.Points, now, func(db *h.DB) error {
-			sub, err := db.Query(c.Sub.SQL(), h.QueryOpts{Mem: true})
+			sub, err := db.Query(c.Sub.SQL(), h.QueryOpts{Mem: true, IsSub: true})
 			if err != nil {
 				if h.IsInconclusive(err) {
 					return err
@@ -621,6 +629,12 @@ func classifyC08(c *C08Case) (bool, []string) {
 	labels := append(c.Data.splitLabels(), "kind-"+c.Kind)
 	if c.Q.Regroups() {
 		labels = append(labels, "regrouping")
+	}
+	if c.Kind == "having" && len(c.Q.Crosstab) > 0 {
+		labels = append(labels, "having-crosstab")
+		if c.Q.CrosstabT {
+			labels = append(labels, "having-crosstabt")
+		}
 	}
 	return len(c.Data.Points) >= 3, labels
 }
